@@ -35,6 +35,10 @@ RULE = (
     "in [-1,1] and mindist>0, KNeighbors() / k=1 with mean/median/max, Linear/Cubic with rescale on/off, ScipyGridder "
     "linear/nearest/cubic, Chains [Trend(0..2), exact], nested Chains, Vectors of exact gridders and of Chains, vector Chains "
     "ending in VectorSpline2D) and predicted at the fitted coordinates (also after the caller overwrote its own arrays); "
+    "HISTORY stream: the same Spline / VectorSpline2D / KNeighbors / Linear / Cubic / Trend / Chain / Vector object fitted again (after predict / grid / "
+    "filter / score or directly; other locations, smaller / equal / larger size, other layouts; the caller's buffers re-used with new contents), "
+    "re-configured to an exact configuration through set_params or attribute assignment after or before first use (also through instances held in "
+    "a Chain / Vector) and fitted validly after a fit() that raised ValueError on other coordinates; "
     "all data times 1e-15..1e15 half of the time (magnitude classes); stream sizes: VectorSpline2D, Spline, KNeighbors and Linear on well separated "
     "jittered grids of 127, 128, 129, 255, 256, 257, 385, 513 points; Trend(0..4) fitted to polynomials of total degree <= N and predicted inside twice the data bounding box. "
     "Non-trivial = at least 3 points, non-constant data and an informative tolerance (< 1e-3 of the data scale); distinct = "
@@ -51,11 +55,14 @@ ASSUMPTIONS = [
     "scipy gridders: a data point lying on the boundary of the exact convex hull (a hull vertex, or within 1e-9 of the extent of a hull edge) that is "
     "returned as NaN or inaccurately is counted either-way (it sits on the backend's inside/outside decision boundary and in sliver hull triangles "
     "whose barycentric coordinates are arbitrarily ill-conditioned); any other data point must be reproduced within the tolerance",
+    "VectorSpline2D: the forces are documented to sit at the data of the first successful fit while force_coords is None and to stay there until "
+    "the parameter is set again; the monitor tracks this over the object's history (a refit without resetting force_coords is classified not exact, "
+    "a fit() that raised does not count as the first fit)",
     "the fitted points are pairwise distinct (cases with duplicates are skipped, the statement quantifies over distinct points)",
 ]
 FLOORS = {
-    "quick": {'eval:spline_exact': 330, 'eval:vspline_exact': 70, 'eval:knn_exact': 235, 'eval:scipy_exact': 430, 'eval:chain_exact': 170, 'eval:vector_exact': 36, 'eval:trend_reproduction': 550, 'informative_kappa_ge_1e6:spline': 75, 'informative_kappa_ge_1e6:trend': 115, 'distinct_nontrivial': 1350, 'layout:coordinates:2d_fortran': 150, 'layout:coordinates:2d_transposed_view': 140, 'layout:coordinates:2d_strided': 150, 'layout:coordinates:1d_series': 250, 'layout:data:2d_fortran': 70, 'layout:data:2d_transposed_view': 80, 'layout:data:2d_strided': 80, 'layout:data:2d_negative_stride': 80, 'layout:data:1d_series': 140, 'layout:data_laid_out_differently_from_coordinates': 800, 'data_magnitude:1e+00': 683, 'data_magnitude:1e+03': 64, 'data_magnitude:1e+06': 56, 'data_magnitude:1e+09': 55, 'data_magnitude:1e+12': 48, 'data_magnitude:1e+15': 63, 'data_magnitude:1e-03': 52, 'data_magnitude:1e-06': 48, 'data_magnitude:1e-09': 55, 'data_magnitude:1e-12': 56, 'data_magnitude:1e-15': 48, 'size_class:knn:127': 1, 'size_class:knn:128': 1, 'size_class:knn:129': 1, 'size_class:knn:255': 1, 'size_class:knn:256': 1, 'size_class:knn:257': 1, 'size_class:knn:385': 1, 'size_class:knn:513': 1, 'size_class:linear:127': 1, 'size_class:linear:128': 1, 'size_class:linear:129': 1, 'size_class:linear:255': 1, 'size_class:linear:256': 1, 'size_class:linear:257': 1, 'size_class:linear:385': 1, 'size_class:linear:513': 1, 'size_class:spline:127': 1, 'size_class:spline:128': 1, 'size_class:spline:129': 1, 'size_class:spline:255': 1, 'size_class:spline:256': 1, 'size_class:spline:257': 1, 'size_class:spline:385': 1, 'size_class:spline:513': 1, 'size_class:vspline:127': 1, 'size_class:vspline:128': 1, 'size_class:vspline:129': 1, 'size_class:vspline:255': 1, 'size_class:vspline:256': 1, 'size_class:vspline:257': 1, 'size_class:vspline:385': 1, 'size_class:vspline:513': 1},
-    "thorough": {'eval:spline_exact': 6600, 'eval:vspline_exact': 1400, 'eval:knn_exact': 4700, 'eval:scipy_exact': 8600, 'eval:chain_exact': 3400, 'eval:vector_exact': 720, 'eval:trend_reproduction': 11000, 'informative_kappa_ge_1e6:spline': 1500, 'informative_kappa_ge_1e6:trend': 2300, 'distinct_nontrivial': 27000, 'layout:coordinates:2d_fortran': 3000, 'layout:coordinates:2d_transposed_view': 2800, 'layout:coordinates:2d_strided': 3000, 'layout:coordinates:1d_series': 5000, 'layout:data:2d_fortran': 1400, 'layout:data:2d_transposed_view': 1600, 'layout:data:2d_strided': 1600, 'layout:data:2d_negative_stride': 1600, 'layout:data:1d_series': 2800, 'layout:data_laid_out_differently_from_coordinates': 16000, 'data_magnitude:1e+00': 12294, 'data_magnitude:1e+03': 1152, 'data_magnitude:1e+06': 1008, 'data_magnitude:1e+09': 990, 'data_magnitude:1e+12': 864, 'data_magnitude:1e+15': 1134, 'data_magnitude:1e-03': 936, 'data_magnitude:1e-06': 864, 'data_magnitude:1e-09': 990, 'data_magnitude:1e-12': 1008, 'data_magnitude:1e-15': 864, 'size_class:knn:127': 8, 'size_class:knn:128': 8, 'size_class:knn:129': 8, 'size_class:knn:255': 8, 'size_class:knn:256': 8, 'size_class:knn:257': 8, 'size_class:knn:385': 8, 'size_class:knn:513': 8, 'size_class:linear:127': 8, 'size_class:linear:128': 8, 'size_class:linear:129': 8, 'size_class:linear:255': 8, 'size_class:linear:256': 8, 'size_class:linear:257': 8, 'size_class:linear:385': 8, 'size_class:linear:513': 8, 'size_class:spline:127': 8, 'size_class:spline:128': 8, 'size_class:spline:129': 8, 'size_class:spline:255': 8, 'size_class:spline:256': 8, 'size_class:spline:257': 8, 'size_class:spline:385': 8, 'size_class:spline:513': 8, 'size_class:vspline:127': 8, 'size_class:vspline:128': 8, 'size_class:vspline:129': 8, 'size_class:vspline:255': 8, 'size_class:vspline:256': 8, 'size_class:vspline:257': 8, 'size_class:vspline:385': 8, 'size_class:vspline:513': 8},
+    "quick": {'eval:spline_exact': 414, 'eval:vspline_exact': 90, 'eval:knn_exact': 264, 'eval:scipy_exact': 490, 'eval:chain_exact': 184, 'eval:vector_exact': 53, 'eval:trend_reproduction': 586, 'informative_kappa_ge_1e6:spline': 75, 'informative_kappa_ge_1e6:trend': 115, 'distinct_nontrivial': 1350, 'layout:coordinates:2d_fortran': 150, 'layout:coordinates:2d_transposed_view': 140, 'layout:coordinates:2d_strided': 150, 'layout:coordinates:1d_series': 250, 'layout:data:2d_fortran': 70, 'layout:data:2d_transposed_view': 80, 'layout:data:2d_strided': 80, 'layout:data:2d_negative_stride': 80, 'layout:data:1d_series': 140, 'layout:data_laid_out_differently_from_coordinates': 800, 'data_magnitude:1e+00': 683, 'data_magnitude:1e+03': 64, 'data_magnitude:1e+06': 56, 'data_magnitude:1e+09': 55, 'data_magnitude:1e+12': 48, 'data_magnitude:1e+15': 63, 'data_magnitude:1e-03': 52, 'data_magnitude:1e-06': 48, 'data_magnitude:1e-09': 55, 'data_magnitude:1e-12': 56, 'data_magnitude:1e-15': 48, 'size_class:knn:127': 1, 'size_class:knn:128': 1, 'size_class:knn:129': 1, 'size_class:knn:255': 1, 'size_class:knn:256': 1, 'size_class:knn:257': 1, 'size_class:knn:385': 1, 'size_class:knn:513': 1, 'size_class:linear:127': 1, 'size_class:linear:128': 1, 'size_class:linear:129': 1, 'size_class:linear:255': 1, 'size_class:linear:256': 1, 'size_class:linear:257': 1, 'size_class:linear:385': 1, 'size_class:linear:513': 1, 'size_class:spline:127': 1, 'size_class:spline:128': 1, 'size_class:spline:129': 1, 'size_class:spline:255': 1, 'size_class:spline:256': 1, 'size_class:spline:257': 1, 'size_class:spline:385': 1, 'size_class:spline:513': 1, 'size_class:vspline:127': 1, 'size_class:vspline:128': 1, 'size_class:vspline:129': 1, 'size_class:vspline:255': 1, 'size_class:vspline:256': 1, 'size_class:vspline:257': 1, 'size_class:vspline:385': 1, 'size_class:vspline:513': 1, 'history:error_then_fit:chain': 2, 'history:error_then_fit:cubic': 2, 'history:error_then_fit:knn': 2, 'history:error_then_fit:linear': 2, 'history:error_then_fit:spline': 2, 'history:error_then_fit:trend': 2, 'history:error_then_fit:vector': 2, 'history:error_then_fit:vspline': 2, 'history:held_instances_reconfigured': 7, 'history:reconfigure_after_use:chain': 2, 'history:reconfigure_after_use:cubic': 2, 'history:reconfigure_after_use:knn': 2, 'history:reconfigure_after_use:linear': 2, 'history:reconfigure_after_use:spline': 2, 'history:reconfigure_after_use:trend': 2, 'history:reconfigure_after_use:vector': 2, 'history:reconfigure_after_use:vspline': 2, 'history:reconfigure_before_use:chain': 2, 'history:reconfigure_before_use:cubic': 2, 'history:reconfigure_before_use:knn': 2, 'history:reconfigure_before_use:linear': 2, 'history:reconfigure_before_use:spline': 2, 'history:reconfigure_before_use:trend': 2, 'history:reconfigure_before_use:vector': 2, 'history:reconfigure_before_use:vspline': 2, 'history:refit_after_use:chain': 2, 'history:refit_after_use:cubic': 2, 'history:refit_after_use:knn': 2, 'history:refit_after_use:linear': 2, 'history:refit_after_use:spline': 2, 'history:refit_after_use:trend': 2, 'history:refit_after_use:vector': 2, 'history:refit_after_use:vspline': 2, 'history:refit_directly:chain': 2, 'history:refit_directly:cubic': 2, 'history:refit_directly:knn': 2, 'history:refit_directly:linear': 2, 'history:refit_directly:spline': 2, 'history:refit_directly:trend': 2, 'history:refit_directly:vector': 2, 'history:refit_directly:vspline': 2, 'history:refit_same_arrays_new_contents:chain': 2, 'history:refit_same_arrays_new_contents:cubic': 2, 'history:refit_same_arrays_new_contents:knn': 2, 'history:refit_same_arrays_new_contents:linear': 2, 'history:refit_same_arrays_new_contents:spline': 2, 'history:refit_same_arrays_new_contents:trend': 2, 'history:refit_same_arrays_new_contents:vector': 2, 'history:refit_same_arrays_new_contents:vspline': 2, 'history:size_change:equal': 21, 'history:size_change:larger': 28, 'history:size_change:smaller': 21, 'history:use:filter': 9, 'history:use:grid': 6, 'history:use:nothing': 7, 'history:use:predict_data': 4, 'history:use:predict_elsewhere': 8, 'history:use:score': 7, 'history:via_attribute_assignment': 10, 'history:via_set_params': 11, 'fit_raised:vspline:ValueError': 2},
+    "thorough": {'eval:spline_exact': 7459, 'eval:vspline_exact': 1627, 'eval:knn_exact': 4766, 'eval:scipy_exact': 8834, 'eval:chain_exact': 3312, 'eval:vector_exact': 957, 'eval:trend_reproduction': 10548, 'informative_kappa_ge_1e6:spline': 1500, 'informative_kappa_ge_1e6:trend': 2300, 'distinct_nontrivial': 27000, 'layout:coordinates:2d_fortran': 3000, 'layout:coordinates:2d_transposed_view': 2800, 'layout:coordinates:2d_strided': 3000, 'layout:coordinates:1d_series': 5000, 'layout:data:2d_fortran': 1400, 'layout:data:2d_transposed_view': 1600, 'layout:data:2d_strided': 1600, 'layout:data:2d_negative_stride': 1600, 'layout:data:1d_series': 2800, 'layout:data_laid_out_differently_from_coordinates': 16000, 'data_magnitude:1e+00': 12294, 'data_magnitude:1e+03': 1152, 'data_magnitude:1e+06': 1008, 'data_magnitude:1e+09': 990, 'data_magnitude:1e+12': 864, 'data_magnitude:1e+15': 1134, 'data_magnitude:1e-03': 936, 'data_magnitude:1e-06': 864, 'data_magnitude:1e-09': 990, 'data_magnitude:1e-12': 1008, 'data_magnitude:1e-15': 864, 'size_class:knn:127': 8, 'size_class:knn:128': 8, 'size_class:knn:129': 8, 'size_class:knn:255': 8, 'size_class:knn:256': 8, 'size_class:knn:257': 8, 'size_class:knn:385': 8, 'size_class:knn:513': 8, 'size_class:linear:127': 8, 'size_class:linear:128': 8, 'size_class:linear:129': 8, 'size_class:linear:255': 8, 'size_class:linear:256': 8, 'size_class:linear:257': 8, 'size_class:linear:385': 8, 'size_class:linear:513': 8, 'size_class:spline:127': 8, 'size_class:spline:128': 8, 'size_class:spline:129': 8, 'size_class:spline:255': 8, 'size_class:spline:256': 8, 'size_class:spline:257': 8, 'size_class:spline:385': 8, 'size_class:spline:513': 8, 'size_class:vspline:127': 8, 'size_class:vspline:128': 8, 'size_class:vspline:129': 8, 'size_class:vspline:255': 8, 'size_class:vspline:256': 8, 'size_class:vspline:257': 8, 'size_class:vspline:385': 8, 'size_class:vspline:513': 8, 'history:error_then_fit:chain': 32, 'history:error_then_fit:cubic': 32, 'history:error_then_fit:knn': 32, 'history:error_then_fit:linear': 32, 'history:error_then_fit:spline': 32, 'history:error_then_fit:trend': 32, 'history:error_then_fit:vector': 32, 'history:error_then_fit:vspline': 32, 'history:held_instances_reconfigured': 129, 'history:reconfigure_after_use:chain': 32, 'history:reconfigure_after_use:cubic': 32, 'history:reconfigure_after_use:knn': 32, 'history:reconfigure_after_use:linear': 32, 'history:reconfigure_after_use:spline': 32, 'history:reconfigure_after_use:trend': 32, 'history:reconfigure_after_use:vector': 32, 'history:reconfigure_after_use:vspline': 32, 'history:reconfigure_before_use:chain': 32, 'history:reconfigure_before_use:cubic': 32, 'history:reconfigure_before_use:knn': 32, 'history:reconfigure_before_use:linear': 32, 'history:reconfigure_before_use:spline': 32, 'history:reconfigure_before_use:trend': 32, 'history:reconfigure_before_use:vector': 32, 'history:reconfigure_before_use:vspline': 32, 'history:refit_after_use:chain': 32, 'history:refit_after_use:cubic': 32, 'history:refit_after_use:knn': 32, 'history:refit_after_use:linear': 32, 'history:refit_after_use:spline': 32, 'history:refit_after_use:trend': 32, 'history:refit_after_use:vector': 32, 'history:refit_after_use:vspline': 32, 'history:refit_directly:chain': 32, 'history:refit_directly:cubic': 32, 'history:refit_directly:knn': 32, 'history:refit_directly:linear': 32, 'history:refit_directly:spline': 32, 'history:refit_directly:trend': 32, 'history:refit_directly:vector': 32, 'history:refit_directly:vspline': 32, 'history:refit_same_arrays_new_contents:chain': 32, 'history:refit_same_arrays_new_contents:cubic': 32, 'history:refit_same_arrays_new_contents:knn': 32, 'history:refit_same_arrays_new_contents:linear': 32, 'history:refit_same_arrays_new_contents:spline': 32, 'history:refit_same_arrays_new_contents:trend': 32, 'history:refit_same_arrays_new_contents:vector': 32, 'history:refit_same_arrays_new_contents:vspline': 32, 'history:size_change:equal': 394, 'history:size_change:larger': 513, 'history:size_change:smaller': 388, 'history:use:filter': 172, 'history:use:grid': 118, 'history:use:nothing': 129, 'history:use:predict_data': 81, 'history:use:predict_elsewhere': 145, 'history:use:score': 129, 'history:via_attribute_assignment': 183, 'history:via_set_params': 205, 'fit_raised:vspline:ValueError': 32},
 }
 JOBS = {"quick": 1, "thorough": 16}
 CASE_TIMEOUT_S = 300
@@ -63,8 +70,8 @@ CASE_TIMEOUT_S = 300
 
 def plan(tier):
     if tier == "quick":
-        return collections.OrderedDict(spline=400, vspline=130, knn=150, scipy=200, chain=220, vector=90, trend_poly=300, sizes=64)
-    return collections.OrderedDict(spline=8000, vspline=2600, knn=3000, scipy=4000, chain=4400, vector=1800, trend_poly=6000, sizes=640)
+        return collections.OrderedDict(spline=400, vspline=130, knn=150, scipy=200, chain=220, vector=90, trend_poly=300, sizes=64, history=288)
+    return collections.OrderedDict(spline=8000, vspline=2600, knn=3000, scipy=4000, chain=4400, vector=1800, trend_poly=6000, sizes=640, history=5760)
 
 
 # ----------------------------------------------------------------------
@@ -75,6 +82,7 @@ class _State:
         self.records = {}
         self.polys = {}
         self.expect = {}
+        self.vforce = {}  # VectorSpline2D: are the forces documented to sit at the data of this fit (tracked over the object's history)
 
 
 _S = _State()
@@ -320,13 +328,27 @@ def install(tap, run):
                           {"mindist": float(obj.mindist), "damping": obj.damping}, exact, why))
 
     def pre_vspline_fit(ev):
-        return {"first_fit": ev.args["self"].force_coords is None}
+        """
+        Are the forces of this fit documented to sit at its data? Yes when force_coords is None and no earlier *successful* fit fixed them
+        (they then stay where they are until the parameter is set again). The monitor tracks this over the object's history: the parameter is
+        read from the object only when it shows a value the monitor did not see at the end of the previous fit call (the user re-configured
+        it), so a fit() that raised - or anything cached at first use - cannot redefine the expectation.
+        """
+        obj = ev.args["self"]
+        track = _S.vforce.get(id(obj))
+        current = obj.force_coords
+        if track is None or track["ref"]() is not obj or current is not track["last_seen"]:
+            return {"first_fit": current is None}
+        return {"first_fit": bool(track["at_next_data"])}
 
     def post_vspline_fit(ev):
-        if ev.exc is not None:
-            return
         obj, a = ev.obj, ev.args
-        exact = obj.damping is None and bool(ev.pre["first_fit"]) and float(obj.mindist) > 0
+        first_fit = bool(ev.pre["first_fit"])
+        _S.vforce[id(obj)] = {"ref": weakref.ref(obj), "at_next_data": first_fit and ev.exc is not None, "last_seen": obj.force_coords}
+        if ev.exc is not None:
+            run.count("fit_raised:vspline:" + type(ev.exc).__name__)
+            return
+        exact = obj.damping is None and first_fit and float(obj.mindist) > 0
         why = "" if exact else ("damping" if obj.damping is not None else "forces not at these data (refit / given) or mindist=0")
         remember(obj, Rec(obj, "vspline", a["coordinates"], a["data"], a["weights"],
                           {"mindist": float(obj.mindist), "poisson": float(obj.poisson), "damping": obj.damping}, exact, why))
@@ -787,6 +809,234 @@ def _fit_predict(est, coords, data, rng, run, weights=None, overwrite=()):
         return est.predict(saved)
 
 
+HISTORY_KINDS = ("spline", "vspline", "knn", "linear", "cubic", "trend", "chain", "vector")
+HISTORY_MODES = ("refit_after_use", "refit_directly", "refit_same_arrays_new_contents", "reconfigure_after_use", "reconfigure_before_use",
+                 "error_then_fit")
+
+
+def _history(run, rng, verde, index):
+    """
+    Object life-cycle histories: the same estimator object is fitted again - after being used, with its caller's buffers re-used,
+    after its parameters were changed, after a fit() that raised. Every fit / predict is judged by the monitors against THAT fit.
+    """
+    kind = HISTORY_KINDS[index % len(HISTORY_KINDS)]
+    mode = HISTORY_MODES[(index // len(HISTORY_KINDS)) % len(HISTORY_MODES)]
+    run.count("history:%s:%s" % (mode, kind))
+    ncomp = {"vspline": 2, "vector": 2}.get(kind, 1)
+    n = _composite_size(rng, 6, 150 if kind != "vspline" else 70, big_share=0.15, big_lo=70 if kind != "vspline" else 35)
+
+    def problem(size, degree=None):
+        east, north, _ = _cloud(rng, size, collinear_ok=False)
+        if kind == "trend":
+            deg_p = int(rng.integers(0, degree + 1))
+            vp = ref.trend_jacobian(east, north, deg_p)
+            mags = np.max(np.abs(vp), axis=0)
+            coefs = gen.log_uniform(rng, 1e-3, 1e6) * rng.normal(size=vp.shape[1]) / np.where(mags > 0, mags, 1.0)
+            return east, north, (vp @ coefs,), {"degree": deg_p, "coefs": coefs}
+        return east, north, tuple(_field(run, rng, east, north) for _ in range(ncomp)), None
+
+    def spacing_of(east, north):
+        return float(np.hypot(np.ptp(east), np.ptp(north)) / np.sqrt(east.size)) or 1.0
+
+    def exact_params(east, north):
+        """Parameters of an exact configuration of the kind."""
+        if kind == "spline":
+            return {"damping": None, "force_coords": None, "mindist": 0 if rng.random() < 0.5 else spacing_of(east, north) * gen.log_uniform(rng, 1e-3, 0.5)}
+        if kind == "vspline":
+            return {"damping": None, "force_coords": None, "poisson": float(rng.uniform(-1, 1)), "mindist": spacing_of(east, north) * gen.log_uniform(rng, 1e-2, 1.5)}
+        if kind == "knn":
+            return {"k": 1, "reduction": [np.mean, np.median, np.max][int(rng.integers(0, 3))]}
+        if kind in ("linear", "cubic"):
+            return {"rescale": bool(rng.random() < 0.5)}
+        return {}
+
+    def other_params(east, north):
+        """Another configuration of the kind (exact or not): what the object is used with before it is re-configured."""
+        if kind == "spline":
+            m = max(2, east.size // 2)
+            return {"damping": [None, 1e-3, 10.0][int(rng.integers(0, 3))], "mindist": spacing_of(east, north) * gen.log_uniform(rng, 1e-2, 1.0),
+                    "force_coords": None if rng.random() < 0.5 else (east[:m] + 0.1 * spacing_of(east, north), north[:m].copy())}
+        if kind == "vspline":
+            m = max(2, east.size // 2)
+            return {"damping": [None, 1e-2][int(rng.integers(0, 2))], "poisson": float(rng.uniform(-1, 1)), "mindist": spacing_of(east, north) * gen.log_uniform(rng, 1e-2, 2.0),
+                    "force_coords": None if rng.random() < 0.5 else (east[:m] + 0.1 * spacing_of(east, north), north[:m].copy())}
+        if kind == "knn":
+            return {"k": int(rng.integers(1, 5)), "reduction": [np.mean, np.median, np.min][int(rng.integers(0, 3))]}
+        if kind in ("linear", "cubic"):
+            return {"rescale": bool(rng.random() < 0.5)}
+        return {}
+
+    def build(params, degree=None):
+        with warnings.catch_warnings():
+            warnings.simplefilter("ignore")
+            if kind == "spline":
+                est = verde.Spline(damping=params["damping"], force_coords=params["force_coords"])
+                est.mindist = params["mindist"]
+                return est
+            if kind == "vspline":
+                return verde.VectorSpline2D(**params)
+            if kind == "knn":
+                return verde.KNeighbors(**params)
+            if kind == "linear":
+                return verde.Linear(**params)
+            if kind == "cubic":
+                return verde.Cubic(**params)
+            if kind == "trend":
+                return verde.Trend(degree)
+            if kind == "chain":
+                return verde.Chain([("trend", verde.Trend(int(rng.integers(0, 3)))), ("interp", _exact_scalar(rng, verde, n, *first[:2]))])
+            return verde.Vector([_exact_scalar(rng, verde, n, *first[:2]) for _ in range(ncomp)])
+
+    def configure(est, params):
+        if not params:
+            return
+        if rng.random() < 0.5:
+            est.set_params(**params)
+            run.count("history:via_set_params")
+        else:
+            for name, value in params.items():
+                setattr(est, name, value)
+            run.count("history:via_attribute_assignment")
+
+    def fit(est, prob, same=None):
+        east, north, comps, claim = prob
+        if claim is not None:
+            _S.polys[id(est)] = dict(claim, ref=weakref.ref(est))
+        if same is None:
+            layout, shaped = _shape(rng, (east, north) + comps)
+            _count_layouts(run, layout)
+        else:
+            shaped = same
+        data = tuple(shaped[2:]) if ncomp > 1 else shaped[2]
+        with warnings.catch_warnings():
+            warnings.simplefilter("ignore")
+            est.fit((shaped[0], shaped[1]), data)
+        return shaped
+
+    def finish(est, prob, shaped):
+        """predict at the fitted points (own copies) and somewhere else."""
+        east, north = prob[0], prob[1]
+        with warnings.catch_warnings():
+            warnings.simplefilter("ignore")
+            est.predict((np.array(np.asarray(shaped[0]), copy=True), np.array(np.asarray(shaped[1]), copy=True)))
+            est.predict((rng.uniform(east.min(), east.max(), 12), rng.uniform(north.min(), north.max(), 12)))
+
+    def use(est, prob, shaped):
+        choice = str(rng.choice(["predict_data", "predict_elsewhere", "grid", "filter", "score", "nothing"]))
+        run.count("history:use:" + choice)
+        east, north = prob[0], prob[1]
+        data = tuple(shaped[2:]) if ncomp > 1 else shaped[2]
+        with warnings.catch_warnings():
+            warnings.simplefilter("ignore")
+            if choice == "predict_data":
+                est.predict((shaped[0], shaped[1]))
+            elif choice == "predict_elsewhere":
+                est.predict((rng.uniform(east.min(), east.max(), 9), rng.uniform(north.min(), north.max(), 9)))
+            elif choice == "grid":
+                est.grid(shape=(int(rng.integers(3, 7)), int(rng.integers(3, 7))))
+            elif choice == "filter":
+                est.filter((shaped[0], shaped[1]), data)
+            elif choice == "score":
+                est.score((shaped[0], shaped[1]), data)
+
+    degree1 = int(rng.integers(0, 5))
+    degree2 = int(rng.choice([d for d in range(5) if d != degree1]))
+    first = problem(n, degree1)
+    how = str(rng.choice(["smaller", "equal", "larger"]))
+    n2 = {"smaller": max(6, int(n * rng.uniform(0.3, 0.8))), "equal": n, "larger": int(n * rng.uniform(1.3, 2.2)) + 1}[how]
+    if kind == "trend":
+        n, n2 = max(n, 16), max(n2, 16)
+        first = problem(n, degree1)
+    second = problem(n2, degree2 if mode.startswith("reconfigure") else degree1)
+    import scipy.spatial
+
+    try:
+        if mode in ("refit_after_use", "refit_directly"):
+            est = build(exact_params(first[0], first[1]), degree1)
+            shaped = fit(est, first)
+            if mode == "refit_after_use":
+                use(est, first, shaped)
+            if kind == "vspline":
+                if rng.random() < 0.75:
+                    est.set_params(force_coords=None)  # forces at the data of the next fit again
+                    run.count("history:vspline_forces_reset_before_refit")
+                else:
+                    run.count("history:vspline_refit_keeps_first_forces(not_exact,documented)")
+            run.count("history:size_change:" + how)
+            shaped = fit(est, second)
+            finish(est, second, shaped)
+        elif mode == "refit_same_arrays_new_contents":
+            est = build(exact_params(first[0], first[1]), degree1)
+            again = problem(n, degree1)
+            shape = lay.logical_shape(rng, n)
+            buffers = tuple(np.array(a.reshape(shape), order="C", copy=True) for a in (first[0], first[1]) + first[2])
+            fit(est, first, same=buffers)
+            use(est, first, buffers)
+            for target, source in zip(buffers, (again[0], again[1]) + again[2]):
+                target[...] = source.reshape(shape)  # the caller re-uses its buffers: same objects (same id), new contents
+            if kind == "vspline":
+                est.set_params(force_coords=None)
+            fit(est, again, same=buffers)
+            finish(est, again, buffers)
+        elif mode in ("reconfigure_after_use", "reconfigure_before_use"):
+            est = build(other_params(first[0], first[1]), degree1)
+            if mode == "reconfigure_after_use":
+                shaped = fit(est, (first[0], first[1], first[2], None) if kind == "trend" else first)
+                use(est, first, shaped)
+            elif kind in ("spline", "vspline", "trend") and rng.random() < 0.5:
+                with warnings.catch_warnings():
+                    warnings.simplefilter("ignore")
+                    if kind == "trend":
+                        est.jacobian((first[0], first[1]))
+                    else:
+                        est.jacobian((first[0], first[1]), (first[0], first[1]))
+            target = second
+            if kind == "trend":
+                configure(est, {"degree": degree2})
+                run.count("history:trend_degree_" + ("up" if degree2 > degree1 else "down"))
+            elif kind in ("chain", "vector"):  # parameters changed through the held instances
+                held = [s for _, s in est.steps] if kind == "chain" else list(est.components)
+                for member in held:
+                    if isinstance(member, verde.Trend):
+                        member.set_params(degree=int(rng.choice([d for d in range(3) if d != member.degree])))
+                    elif isinstance(member, verde.Spline):
+                        member.mindist = spacing_of(target[0], target[1]) * gen.log_uniform(rng, 1e-3, 0.3)
+                    elif isinstance(member, (verde.Linear, verde.Cubic)):
+                        member.set_params(rescale=not member.rescale)
+                    elif isinstance(member, verde.KNeighbors):
+                        member.set_params(reduction=np.median)
+                run.count("history:held_instances_reconfigured")
+            else:
+                configure(est, exact_params(target[0], target[1]))
+            run.count("history:size_change:" + how)
+            shaped = fit(est, target)
+            finish(est, target, shaped)
+        elif mode == "error_then_fit":
+            est = build(exact_params(second[0], second[1]), degree1)
+            east, north, comps, _ = first
+            which = str(rng.choice(["data_shape", "coordinate_shape"]))
+            if kind == "vspline" and (index // (len(HISTORY_KINDS) * len(HISTORY_MODES))) % 2 == 0:
+                which = "components"
+            bad_coords = (east, north[:-1]) if which == "coordinate_shape" else (east, north)
+            bad = tuple(c[:-1] for c in comps) if which == "data_shape" else comps
+            if which == "components":
+                bad = (comps[0], comps[1], comps[0]) if rng.random() < 0.5 else (comps[0],)
+            try:
+                with warnings.catch_warnings():
+                    warnings.simplefilter("ignore")
+                    est.fit(bad_coords, bad if (ncomp > 1 or which == "components") else bad[0])
+                run.count("history:error_path:%s:accepted" % which)
+            except ValueError:
+                run.count("history:error_path:%s:ValueError" % which)
+            run.count("history:size_change:" + how)
+            shaped = fit(est, second)
+            finish(est, second, shaped)
+    except scipy.spatial.QhullError:
+        run.count("refused:qhull")
+        return
+    run.sample("history", {"mode": mode, "kind": kind, "estimator": _describe(est), "n_first": n, "n_second": n2})
+
+
 def run_case(run, tap, stream, index, rng):
     import scipy.spatial
     import verde
@@ -794,6 +1044,7 @@ def run_case(run, tap, stream, index, rng):
     _S.records.clear()
     _S.polys.clear()
     _S.expect.clear()
+    _S.vforce.clear()
 
     if stream == "spline":
         n = _composite_size(rng, 3, 400)
@@ -969,6 +1220,8 @@ def run_case(run, tap, stream, index, rng):
         run.sample("trend_poly", {"degree": degree, "polynomial_degree": deg_p, "coefficients": coefs, "n": n, "easting": east, "northing": north,
                                   "data": data, "query_easting": qe, "query_northing": qn, "prediction": np.asarray(pred),
                                   "kappa_V": (_lookup(est).info or {}).get("kappa")})
+    elif stream == "history":
+        _history(run, rng, verde, index)
     elif stream == "sizes":
         # point counts at and around multiples of 64/128/256 on well separated jittered grids (kappa stays moderate: informative, exact)
         kind_of = ["vspline", "spline", "knn", "linear"][index % 4]
